@@ -24,6 +24,12 @@ def check_text(ctx, text, tag, seen):
         bad = next((i for i, (x, y) in enumerate(zip(dec or [], exp)) if x != y), None)
         rep.violate("stream-does-not-decode-to-the-instruction-list", dict(case, first_bad_instruction=exp[bad] if bad is not None else None),
                     {"instructions": exp[:20]}, {"decoded": (dec or [])[:20]}, model_agrees_with_spec=None)
+    # the separators occur only in their separator roles: one `::` and one `|` per record, one `,` per field
+    want = (len(exp), len(exp), sum(1 + max(1, len(ops)) for _, _, ops in exp))
+    got = (s[1].count("::"), s[1].count("|"), s[1].count(","))
+    if dec == exp and got != want:
+        rep.violate("separator-outside-its-role", case, {"count of :: | ,": want}, {"count of :: | ,": got, "stream": s[1][:400]},
+                    model_agrees_with_spec=None)
     # injectivity: a stream seen before must come from the same list
     key = s[1]
     if key in seen and seen[key] != exp:
